@@ -1504,3 +1504,213 @@ Proof.
   apply init_inv in H as (_ & _ & p & E & H). apply add_outputs_inv in H as (_ & _ & _ & _ & _ & A6 & _).
   eapply cores_kc; [exact A6|]. eapply add_inputs_kc; eauto. intros x y [].
 Qed.
+
+(* ===== partial signatures commit to the locktime: adding inputs never moves it under them ===== *)
+Definition has_psig (a : aux) : bool := negb (match a_psigs a with [] => true | _ => false end).
+(* the inputs as addInput walks them: creation-time part and written part side by side *)
+Fixpoint any_psigs (cs : list core) (auxs : list aux) : bool :=
+  match cs with [] => false | _ :: cs' => has_psig (hd aux0 auxs) || any_psigs cs' (tl auxs) end.
+Definition signed (p : pset) : bool := any_psigs (p_cores p) (p_auxs p).
+
+Lemma fold_max_init : forall (g : core -> N) cs m,
+  fold_left (fun m c => N.max m (g c)) cs m = N.max m (fold_left (fun m c => N.max m (g c)) cs 0).
+Proof.
+  intros g; induction cs as [|c cs IH]; intro m; cbn [fold_left]; [lia|].
+  rewrite IH, (IH (N.max 0 (g c))). lia.
+Qed.
+Lemma max_time_cons : forall c cs, max_time (c :: cs) = N.max (c_time c) (max_time cs).
+Proof. intros; unfold max_time; cbn [fold_left]. rewrite fold_max_init. lia. Qed.
+Lemma max_height_cons : forall c cs, max_height (c :: cs) = N.max (c_height c) (max_height cs).
+Proof. intros; unfold max_height; cbn [fold_left]. rewrite fold_max_init. lia. Qed.
+Lemma max_time_snoc : forall cs c, max_time (cs ++ [c]) = N.max (max_time cs) (c_time c).
+Proof. intros; unfold max_time; rewrite fold_left_app; reflexivity. Qed.
+Lemma max_height_snoc : forall cs c, max_height (cs ++ [c]) = N.max (max_height cs) (c_height c).
+Proof. intros; unfold max_height; rewrite fold_left_app; reflexivity. Qed.
+
+Lemma lock_loop_sigs : forall cs auxs t h s r, lock_loop cs auxs t h s = Some r -> snd r = s || any_psigs cs auxs.
+Proof.
+  induction cs as [|c cs IH]; intros auxs t h s r H; cbn [lock_loop any_psigs] in *.
+  - inversion H; cbn; rewrite orb_false_r; reflexivity.
+  - repeat match type of H with (if ?b then _ else _) = _ => destruct b; [discriminate|] end.
+    apply IH in H. rewrite H. unfold has_psig. rewrite orb_assoc; reflexivity.
+Qed.
+
+(* once the height (time) candidate is zero, a height-only (time-only) input stops the loop *)
+Lemma lock_loop_h0 : forall cs auxs t s r, lock_loop cs auxs t 0 s = Some r -> existsb height_only cs = false.
+Proof.
+  induction cs as [|c cs IH]; intros auxs t s r H; cbn [lock_loop existsb] in *; auto.
+  unfold height_only at 1. destruct (c_time c =? 0) eqn:E1; destruct (c_height c =? 0) eqn:E2; cbn [negb andb orb] in *;
+    try discriminate; cbn [N.eqb] in H;
+    repeat match type of H with (if ?b then _ else _) = _ => destruct b; [discriminate|] end; eapply IH; eauto.
+Qed.
+Lemma lock_loop_t0 : forall cs auxs h s r, lock_loop cs auxs 0 h s = Some r -> existsb time_only cs = false.
+Proof.
+  induction cs as [|c cs IH]; intros auxs h s r H; cbn [lock_loop existsb] in *; auto.
+  unfold time_only at 1. destruct (c_time c =? 0) eqn:E1; destruct (c_height c =? 0) eqn:E2; cbn [negb andb orb] in *;
+    try discriminate; cbn [N.eqb] in H;
+    repeat match type of H with (if ?b then _ else _) = _ => destruct b; [discriminate|] end; eapply IH; eauto.
+Qed.
+
+(* the candidates the loop ends with *)
+Definition T_end (cs : list core) (t : N) : N :=
+  if t =? 0 then 0 else if existsb height_only cs then 0 else N.max t (max_time cs).
+Definition H_end (cs : list core) (h : N) : N :=
+  if h =? 0 then 0 else if existsb time_only cs then 0 else N.max h (max_height cs).
+
+Lemma lock_loop_vals : forall cs auxs t h s t' h' s', lock_loop cs auxs t h s = Some (t', h', s') ->
+  t' = T_end cs t /\ h' = H_end cs h.
+Proof.
+  induction cs as [|c cs IH]; intros auxs t h s t' h' s' H.
+  - cbn in H; inversion H; subst. unfold T_end, H_end; cbn. split.
+    + destruct (t' =? 0) eqn:E; [apply N.eqb_eq in E; auto|unfold max_time; cbn; lia].
+    + destruct (h' =? 0) eqn:E; [apply N.eqb_eq in E; auto|unfold max_height; cbn; lia].
+  - cbn [lock_loop] in H. unfold T_end, H_end. cbn [existsb]. rewrite max_time_cons, max_height_cons.
+    unfold time_only at 1, height_only at 1.
+    destruct (c_time c =? 0) eqn:E1; destruct (c_height c =? 0) eqn:E2; cbn [negb andb orb] in *.
+    + (* neither *) apply N.eqb_eq in E1, E2. apply IH in H as [A B]. unfold T_end, H_end in A, B. rewrite A, B, E1, E2.
+      split; [destruct (t =? 0); auto; destruct (existsb height_only cs); auto; lia
+             |destruct (h =? 0); auto; destruct (existsb time_only cs); auto; lia].
+    + (* height only *) destruct (h =? 0) eqn:E3; [discriminate|]. cbn [negb andb] in H.
+      apply N.eqb_eq in E1. apply N.eqb_neq in E2, E3.
+      apply IH in H as [A B]. unfold T_end, H_end in A, B. cbn [N.eqb] in A. rewrite A, B.
+      split; [destruct (t =? 0); reflexivity|].
+      assert ((N.max h (c_height c) =? 0) = false) as -> by (apply N.eqb_neq; lia).
+      destruct (existsb time_only cs); auto. lia.
+    + (* time only *) destruct (t =? 0) eqn:E3; [discriminate|]. cbn [N.eqb negb andb] in H.
+      apply N.eqb_eq in E2. apply N.eqb_neq in E1, E3.
+      apply IH in H as [A B]. unfold T_end, H_end in A, B. cbn [N.eqb] in B. rewrite A, B.
+      split; [|destruct (h =? 0); reflexivity].
+      assert ((N.max t (c_time c) =? 0) = false) as -> by (apply N.eqb_neq; lia).
+      destruct (existsb height_only cs); auto. lia.
+    + (* both *) apply N.eqb_neq in E1, E2.
+      apply IH in H as [A B]. unfold T_end, H_end in A, B. rewrite A, B. split.
+      * destruct (t =? 0) eqn:E3; cbn [negb].
+        { apply N.eqb_eq in E3; subst; reflexivity. }
+        apply N.eqb_neq in E3. assert ((N.max t (c_time c) =? 0) = false) as -> by (apply N.eqb_neq; lia).
+        destruct (existsb height_only cs); auto. lia.
+      * destruct (h =? 0) eqn:E3; cbn [negb].
+        { apply N.eqb_eq in E3; subst; reflexivity. }
+        apply N.eqb_neq in E3. assert ((N.max h (c_height c) =? 0) = false) as -> by (apply N.eqb_neq; lia).
+        destruct (existsb time_only cs); auto. lia.
+Qed.
+
+(* a loop that succeeds never met a time-only and a height-only input *)
+Lemma lock_loop_excl : forall cs auxs t h s r, lock_loop cs auxs t h s = Some r ->
+  existsb time_only cs = true -> existsb height_only cs = true -> False.
+Proof.
+  induction cs as [|c cs IH]; intros auxs t h s r H HT HH; [discriminate|].
+  cbn [lock_loop existsb] in *. unfold time_only at 1 in HT. unfold height_only at 1 in HH.
+  destruct (c_time c =? 0) eqn:E1; destruct (c_height c =? 0) eqn:E2; cbn [negb andb orb] in *.
+  - eapply IH; eauto.
+  - destruct (h =? 0); [discriminate|]. cbn [negb andb] in H. apply lock_loop_t0 in H. congruence.
+  - destruct (t =? 0); [discriminate|]. cbn [N.eqb negb andb] in H. apply lock_loop_h0 in H. congruence.
+  - eapply IH; eauto.
+Qed.
+
+Lemma spec_locktime_snoc : forall p p' c, p_cores p' = p_cores p ++ [c] -> g_fallback p' = g_fallback p ->
+  spec_locktime p' =
+  (if existsb time_only (p_cores p) || time_only c then N.max (max_time (p_cores p)) (c_time c)
+   else if existsb (fun c => negb (c_height c =? 0)) (p_cores p) || negb (c_height c =? 0)
+        then N.max (max_height (p_cores p)) (c_height c) else fallback_or_0 p).
+Proof.
+  intros p p' c Hc Hf; unfold spec_locktime, fallback_or_0. rewrite Hc, Hf, !existsb_app, max_time_snoc, max_height_snoc.
+  cbn [existsb]. rewrite !orb_false_r. reflexivity.
+Qed.
+
+Lemma height_only_has_height : forall cs, existsb height_only cs = true -> existsb (fun c => negb (c_height c =? 0)) cs = true.
+Proof.
+  intros cs H; apply existsb_exists in H as [e [Hin He]]. apply existsb_exists; exists e; split; auto.
+  unfold height_only in He; apply andb_prop in He as [_ He]; exact He.
+Qed.
+
+(* one input: under partial signatures the locktime stays where it is *)
+Lemma add_input_signed_locktime : forall p a p', add_input p a = Some p' -> signed p = true -> locktime p' = locktime p.
+Proof.
+  intros p a p' H Hs. pose proof H as H0.
+  apply add_input_inv in H0 as (_ & _ & _ & A4 & _ & A6 & _).
+  rewrite (locktime_is_max_of_selected_kind p'), (spec_locktime_snoc p p' (to_core a) A6 A4).
+  unfold add_input in H.
+  destruct ((ia_cls a =? 1) || (ia_cls a =? 2)); [discriminate|].
+  destruct (existsb (same_outpoint (to_core a)) (p_cores p)); [discriminate|].
+  destruct (negb (inputs_modifiable p)); [discriminate|].
+  set (c := to_core a) in *.
+  destruct (negb (c_height c =? 0) || negb (c_time c =? 0)) eqn:Eany.
+  2:{ (* no required locktime on the new input *)
+      apply orb_false_elim in Eany as [Ea Eb]. apply negb_false_iff in Ea, Eb. apply N.eqb_eq in Ea, Eb.
+      rewrite (locktime_is_max_of_selected_kind p). unfold spec_locktime, time_only. rewrite Ea, Eb; cbn [N.eqb negb andb].
+      rewrite !orb_false_r, !N.max_0_r. reflexivity. }
+  destruct (lock_loop (p_cores p) (p_auxs p) (c_time c) (c_height c) false) as [[[t' h'] s']|] eqn:EL; [|discriminate].
+  pose proof (lock_loop_sigs _ _ _ _ _ _ EL) as Hsig. cbn in Hsig. unfold signed in Hs. rewrite Hs in Hsig. subst s'.
+  destruct (lock_loop_vals _ _ _ _ _ _ _ _ EL) as [Ht Hh].
+  assert (forall e, In e (p_cores p) -> (time_only e = true -> c_time c <> 0) /\ (height_only e = true -> c_height c <> 0)) as Hok
+    by (eapply lock_loop_ok; eauto).
+  (* the guard: signatures present, so the old locktime is the candidate *)
+  match type of H with (if negb ?g then _ else _) = _ => destruct g eqn:Eg end; cbn [negb] in H; [|discriminate].
+  cbn [andb] in Eg. apply negb_true_iff, negb_false_iff, N.eqb_eq in Eg. rewrite Eg. clear H Eg.
+  subst t' h'. unfold T_end, H_end, time_only at 2.
+  destruct (existsb time_only (p_cores p)) eqn:TO; destruct (existsb height_only (p_cores p)) eqn:HO.
+  - exfalso; eapply lock_loop_excl; eauto.
+  - (* a time-only input exists: the new one has a time lock *)
+    apply existsb_exists in TO as [e [Hin He]]. destruct (Hok e Hin) as [Q _]. specialize (Q He).
+    apply N.eqb_neq in Q. rewrite Q. cbn [orb negb].
+    destruct (c_height c =? 0); cbn [negb andb].
+    + assert ((N.max (c_time c) (max_time (p_cores p)) =? 0) = false) as -> by (apply N.eqb_neq; apply N.eqb_neq in Q; lia).
+      cbn [negb N.eqb]. lia.
+    + assert ((N.max (c_time c) (max_time (p_cores p)) =? 0) = false) as -> by (apply N.eqb_neq; apply N.eqb_neq in Q; lia).
+      cbn [negb N.eqb]. lia.
+  - (* a height-only input exists: the new one has a height lock, so it is not time-only *)
+    pose proof (height_only_has_height _ HO) as HH.
+    apply existsb_exists in HO as [e [Hin He]]. destruct (Hok e Hin) as [_ Q]. specialize (Q He).
+    apply N.eqb_neq in Q. rewrite Q, HH. cbn [orb negb andb]. rewrite andb_false_r. cbn [orb].
+    assert ((N.max (c_height c) (max_height (p_cores p)) =? 0) = false) as -> by (apply N.eqb_neq; apply N.eqb_neq in Q; lia).
+    cbn [negb N.eqb]. lia.
+  - (* neither kind is forced by the packet *)
+    cbn [orb]. destruct (c_height c =? 0) eqn:Eh; destruct (c_time c =? 0) eqn:Et; cbn [negb andb orb] in *; try discriminate.
+    + (* time only new input *)
+      assert ((N.max (c_time c) (max_time (p_cores p)) =? 0) = false) as -> by (apply N.eqb_neq; apply N.eqb_neq in Et; lia).
+      cbn [negb N.eqb]. lia.
+    + (* height only new input *)
+      rewrite orb_true_r.
+      assert ((N.max (c_height c) (max_height (p_cores p)) =? 0) = false) as -> by (apply N.eqb_neq; apply N.eqb_neq in Eh; lia).
+      cbn [negb N.eqb]. lia.
+    + rewrite orb_true_r.
+      assert ((N.max (c_height c) (max_height (p_cores p)) =? 0) = false) as -> by (apply N.eqb_neq; apply N.eqb_neq in Eh; lia).
+      cbn [negb N.eqb]. lia.
+Qed.
+
+Lemma any_psigs_nil : forall cs, any_psigs cs [] = false.
+Proof. induction cs as [|c cs IH]; cbn; auto. Qed.
+Lemma any_psigs_app : forall cs auxs cs2 l2, any_psigs cs auxs = true -> any_psigs (cs ++ cs2) (auxs ++ l2) = true.
+Proof.
+  induction cs as [|c cs IH]; intros auxs cs2 l2 H; cbn in H; [discriminate|].
+  destruct auxs as [|x xs]; [cbn in H; rewrite any_psigs_nil in H; discriminate|].
+  cbn in *. apply orb_prop in H as [H|H]; [rewrite H; reflexivity|]. rewrite (IH _ _ _ H), orb_true_r; reflexivity.
+Qed.
+
+Lemma add_inputs_signed_locktime : forall l p p', add_inputs p l = Some p' -> signed p = true ->
+  locktime p' = locktime p /\ signed p' = true.
+Proof.
+  induction l as [|a l IH]; intros p p' H Hs; cbn in H; [inversion H; subst; auto|].
+  destruct (add_input p a) as [p1|] eqn:E; [|discriminate].
+  pose proof (add_input_signed_locktime _ _ _ E Hs) as L1.
+  assert (signed p1 = true) as S1.
+  { apply add_input_inv in E as (_ & _ & _ & _ & _ & A6 & A7 & _). unfold signed in *. rewrite A6, A7. apply any_psigs_app; auto. }
+  destruct (IH _ _ H S1) as [L2 S2]. split; [congruence|auto].
+Qed.
+
+(* ===== AddInputs never moves the locktime of a packet that carries partial signatures: any packet, any arguments ===== *)
+Theorem signed_locktime_fixed : forall p l, signed p = true -> locktime (fst (step p (OAddInputs l))) = locktime p.
+Proof.
+  intros p l Hs; cbn [step].
+  destruct (negb (forallb (fun a => ia_cls a =? 0) l)); [reflexivity|].
+  destruct (add_inputs p l) as [p'|] eqn:E; [|reflexivity].
+  unfold publish; destruct (sanity p'); cbn [fst]; [|reflexivity].
+  apply (add_inputs_signed_locktime _ _ _ E Hs).
+Qed.
+
+(* the shape of seeded change p: a signed input without required locktime, then an input with a height lock: refused *)
+Example signed_then_height_lock_refused :
+  exists p0, init [mk_in 0 0 0 0] [] None = IOk p0 /\
+    let p := run p0 [OWUtxo 0%Z (Some {| u_script := SWpkh 0; u_conf := false |}); OSign 0%Z true 1 (Some 0) None None] in
+    signed p = true /\ step p (OAddInputs [mk_in 1 0 120 0]) = (p, Err) /\ snd (step p (OAddInputs [mk_in 1 0 0 0])) = Ok.
+Proof. eexists; split; [vm_compute; reflexivity|]. vm_compute. auto. Qed.
